@@ -39,7 +39,7 @@ VARIABLES prof,            \* input family of this behaviour
           phase,
           \* --- AnalysisPath / listener registers
           nodeInfos,       \* bs.nodeInfos
-          currentClzType,  \* bs_java.currentClzType (never reset between files)
+          currentClzType,  \* bs_java.currentClzType (set by EnterClassDeclaration / EnterInterfaceDeclaration)
           methods,         \* bs_java.methods (reset by NewBadSmellListener)
           mi,              \* index of the member being visited
           cur,             \* the BSFunction under construction
